@@ -79,6 +79,28 @@ fn lex_err_coq(e: &LexerError) -> String {
     format!("(SErr {} {} {})", k, e.span.start.full_index, e.span.end.full_index)
 }
 
+
+fn tok_coq(t: &radix_transactions::manifest::token::TokenWithSpan) -> String {
+    let k = match &t.token {
+        Token::BoolLiteral(b) => format!("(TBool {})", coq_bool(*b)),
+        Token::I8Literal(v) => format!("(TInt true 8 {})", coq_z(v)), Token::I16Literal(v) => format!("(TInt true 16 {})", coq_z(v)),
+        Token::I32Literal(v) => format!("(TInt true 32 {})", coq_z(v)), Token::I64Literal(v) => format!("(TInt true 64 {})", coq_z(v)),
+        Token::I128Literal(v) => format!("(TInt true 128 {})", coq_z(v)),
+        Token::U8Literal(v) => format!("(TInt false 8 {})", coq_z(v)), Token::U16Literal(v) => format!("(TInt false 16 {})", coq_z(v)),
+        Token::U32Literal(v) => format!("(TInt false 32 {})", coq_z(v)), Token::U64Literal(v) => format!("(TInt false 64 {})", coq_z(v)),
+        Token::U128Literal(v) => format!("(TInt false 128 {})", coq_z(v)),
+        Token::StringLiteral(x) => format!("(TString {})", chars_coq(x)), Token::Ident(x) => format!("(TIdent {})", chars_coq(x)),
+        Token::OpenParenthesis => "TOpenP".into(), Token::CloseParenthesis => "TCloseP".into(), Token::LessThan => "TLt".into(),
+        Token::GreaterThan => "TGt".into(), Token::Comma => "TComma".into(), Token::Semicolon => "TSemi".into(), Token::FatArrow => "TFatArrow".into(),
+    };
+    format!("({}, {}, {})", k, t.span.start.full_index, t.span.end.full_index)
+}
+const FRAGS: &[&str] = &["0u8", "-0i8", "-0u8", "255u8", "256u8", "-128i8", "-129i8", "65535u16", "65536u16", "-32769i16", "4294967295u32", "4294967296u32", "2147483648i32",
+    "18446744073709551615u64", "18446744073709551616u64", "-9223372036854775808i64", "-9223372036854775809i64",
+    "170141183460469231731687303715884105727i128", "170141183460469231731687303715884105728i128", "-170141183460469231731687303715884105728i128",
+    "340282366920938463463374607431768211455u128", "340282366920938463463374607431768211456u128", "1i12", "1i127", "1i1", "1i3", "1i6", "1i65", "1u3", "1u6", "1u", "1i", "1", "12", "01u8", "00", "-", "--1u8", "-a", "12a", "7i64x", "7i8u8",
+    "true", "false", "truex", "True", "a:b_c", "A9", "_a", ":a", "=>", "=", "= >", "=\n>", "(", ")", "<", ">", ",", ";", "{", "}", "&", "é", "#c\n", "# é \r\n", "\"s\"", "\"\\n\\u00e9\"", "\"open", " ", "\t", "\r\n", "\n"];
+
 fn gen_string_literal(rng: &mut Rng) -> String {
     let mut s = String::from("\"");
     let n = rng.below(10);
@@ -107,7 +129,7 @@ fn main() {
          200) and LF/CRLF/CR/mixed line endings, plus arbitrary strings; compiled as V1, SystemV1, V2, SubintentV2 twice + diagnostics in both styles under \
          catch_unwind. stream B (model): string-literal texts vs lexer. non-trivial = mutated template or a string literal with an escape",
     );
-    let mut cw = CaseWriter::new("RV.Corr.C31_run RV.Model.C30_Text", "check");
+    let mut cw = CaseWriter::new("RV.Corr.C31_run RV.Model.C30_Text RV.Model.C31_Lexer", "check");
     let root = Rng::new(args.seed);
     let net = NetworkDefinition::simulator();
     let temps = templates();
@@ -156,6 +178,34 @@ fn main() {
             }
             cw.push("CNone".to_string());
         } else {
+            if (i / 3) % 2 == 1 {
+                // ---- stream B2: whole-lexer correspondence on a short text ----
+                let text: String = if rng.bool() {
+                    let n = rng.range(1, 9); let mut t = String::new();
+                    for _ in 0..n { t.push_str(&rng.pick(FRAGS).replace("\\n", "\n").replace("\\r", "\r").replace("\\t", "\t")); if rng.chance(3, 4) { t.push_str(*rng.pick(&[" ", "\n", "\r\n", "\t", "  "])); } }
+                    t
+                } else {
+                    let base = rng.pick(&temps).clone();
+                    if rng.bool() {
+                        // an unmutated run of whole lines (lexes fine), LF or CRLF
+                        let lines: Vec<&str> = base.split('\n').collect(); let a = rng.usize_below(lines.len()); let b = (a + 1 + rng.usize_below(4)).min(lines.len());
+                        let mut t = lines[a..b].join(if rng.chance(1, 3) { "\r\n" } else { "\n" }); if t.chars().count() > 260 { t = t.chars().take(260).collect(); } t
+                    } else {
+                        let (m, _) = mutate(&mut rng, &base);
+                        let cs: Vec<char> = m.chars().collect(); if cs.is_empty() { String::new() } else { let a = rng.usize_below(cs.len()); let b = (a + rng.usize_below(160)).min(cs.len()); cs[a..b].iter().collect() }
+                    }
+                };
+                let t2 = text.clone();
+                let r = catch(move || tokenize(&t2));
+                report.case(&text, true);
+                let out = match &r {
+                    Err(p) => { report.oracle_failure(i, "", &format!("tokenize panicked: {}", p), json!({"text": text})); "LPanic".to_string() }
+                    Ok(Ok(toks)) => { report.count("lex_ok"); report.count_n("tokens", toks.len() as u64); format!("(LOk {})", coq_list(toks.iter().map(tok_coq))) }
+                    Ok(Err(e)) => { report.count("lex_err"); lex_err_coq(e).replacen("(SErr", "(LErr", 1) }
+                };
+                cw.push(format!("CLex {} {}", chars_coq(&text), out));
+                continue;
+            }
             // ---- stream B: one string literal ----
             let lit = gen_string_literal(&mut rng);
             let lit2 = lit.clone();
@@ -181,8 +231,10 @@ fn main() {
     report.floor("generator_error", n / 20);
     report.floor("compiled_ok", n / 20);
     report.floor("diagnostics_rendered", n / 2);
-    report.floor("string_ok", n / 30);
-    report.floor("string_err", n / 30);
+    report.floor("string_ok", n / 60);
+    report.floor("string_err", n / 60);
+    report.floor("lex_ok", n / 60);
+    report.floor("lex_err", n / 60);
     cw.write(&args.out, args.shards).unwrap();
     report.write(&args.out).unwrap();
 }
